@@ -90,8 +90,18 @@ C13_UNITS = [U(PRB, f"{DM}.{m}", timeout_ms=20000) for m in ("_convert_gamma_par
           + [U(PRB, f"{FO}.random_event_probability")] \
           + [U(PRB, f"{MJ}.{m}", timeout_ms=20000) for m in ("_setup_before_space_construction", "_calculate_demand_probabilities", "_get_multinomial_logits", "_calculate_received_order_probabilities", "random_event_probability")]
 DIST_ASSUME = ["distribution functions are uninterpreted mathematical functions with assumed contracts: a cdf is non-decreasing with values in [0,1] (Gamma: cdf(0)=0); a pmf is >= 0 and its partial sums are <= 1; exp(log_prob(x)) is the pmf; the multinomial pmf sums to one over the compositions of the order - the numerical accuracy of numpyro / scipy / jax.scipy is trusted",
-               "Hendrix: the four-case decomposition of units issued (which case applies, Poisson pmf / cdf factors, row / column placement, event index) is proved with the Poisson functions uninterpreted and the total-demand table pz arbitrary; the CONTENTS of the tables pu / pz (Python loops over scipy calls, truncated at the model's maximum demand) and Mirjalili's event-space enumeration are covered only by the bounded harness (complete enumeration on a stated parameter grid)"]
-PROPS["C13"] = dict(level="proof", bounded=[dict(name="c13_runtime", script="harness_problems.py", args=["--prop", "c13"], wall_s=300)], units=C13_UNITS, lean=["telescope"], assumptions=[ARITH, ENGINE] + DIST_ASSUME)
+               "Hendrix: the four-case decomposition of units issued and the contents of the tables pu / pz are proved with the Poisson / binomial pmf uninterpreted; that the four cases SUM to one over the event space (up to the truncated tail) is covered only by the bounded harness (complete enumeration on a stated parameter grid)",
+               "Mirjalili: sum-to-one over the enumerated event space is the Lean theorem events_sum_one over the discharged code obligations (event space = documented event set, product form, censored demand factor sums to one) plus the assumed library fact that the multinomial pmf sums to one over the splits of the order"]
+PROPS["C13"] = dict(level="proof", bounded=[dict(name="c13_runtime", script="harness_problems.py", args=["--prop", "c13"], wall_s=300)], units=C13_UNITS, lean=["telescope", "events_sum_one", "events_nonneg"], assumptions=[ARITH, ENGINE] + DIST_ASSUME,
+    links={"events_sum_one (Mirjalili: the event probabilities of every state-action pair sum to one)": {
+              "hmem (every listed event is a documented event)": "MirjaliliPlateletPerishable._construct_random_event_space.post.every_row_is_a_documented_event",
+              "hinj (no event listed twice)": "..._construct_random_event_space.post.no_event_is_listed_twice",
+              "hsurj (every documented event listed)": "..._construct_random_event_space.post.every_documented_event_is_listed (+ candidate_rows_are_the_full_product)",
+              "summand nb d * g r": "MirjaliliPlateletPerishable.random_event_probability.post.censored_negbin_of_the_weekday_times_multinomial_split_of_the_order (every listed demand incl. the censored bin)",
+              "hnb (demand factor sums to one)": "MirjaliliPlateletPerishable._calculate_demand_probabilities.post.sums_to_one",
+              "hg (split factor sums to one over the documented splits)": "ASSUMED: the multinomial pmf sums to one over the compositions of the order (all of which are documented splits because order <= max_order_quantity); g is zero on the other splits (..._calculate_received_order_probabilities.post.multinomial_pmf_if_split_sums_to_order_else_zero)"},
+           "events_nonneg": "non-negativity of each term from the factors' non-negativity (_calculate_demand_probabilities.post.nonnegative; pmf >= 0 assumed)",
+           "telescope": "De Moor: differences of the cdf at the bin edges telescope (sum to cdf(last edge) - cdf(0))"})
 PROPS["C16"] = dict(level="other", bounded=[dict(name="c16_runtime", script="harness_problems.py", args=["--prop", "c16"], wall_s=400)],
     units=C13_UNITS + [U(PRB, f"{HX}.initial_value"), U(PRB, "mdpax.core.problem.Problem.initial_value"), U(PRB, f"{HX}.random_event_probability", timeout_ms=30000)]
         + [U(PRB, f"{HX}.{m}") for m in ("_get_probs_ia_lt_stock_a_ib_lt_stock_b", "_get_probs_ia_eq_stock_a_ib_lt_stock_b", "_get_probs_ia_lt_stock_a_ib_eq_stock_b", "_get_probs_ia_eq_stock_a_ib_eq_stock_b")], lean=["telescope"], assumptions=[ARITH, ENGINE] + DIST_ASSUME,
@@ -241,7 +251,7 @@ LEVEL_TEXT = {
  "C09": "Proof relative to assumed Orbax/OmegaConf contracts: carried state is saved, saved state is the current state at a save site labelled with the iteration (real save() body executed against the manager ADT), every saved field restored to its own attribute, everything else fixed by construction. Resume equality itself is exercised by the bounded harness (fresh process).",
  "C10": "Proof relative to assumed library contracts: restore() error paths, overrides field by field (every subset of the optional arguments, symbolic values), state read from the original directory at the chosen step, load_checkpoint, has_full_config, config capture; template-structure obligation fails for the VI family (known finding).",
  "C12": "Proof relative to the CheckpointManager ADT: cadence invariant of the five solve loops with the real save() body, final iteration always submitted, set-up effects (nothing for f = 0, max_to_keep, config.yaml iff reconstructible); retention itself is the ADT's assumed behaviour, conformance-tested against real Orbax.",
- "C13": "Proof of sum-to-one / non-negativity by construction for Forest, De Moor and Mirjalili's demand factor with the distribution functions uninterpreted; Mirjalili's event space proved to be exactly the documented event set, each event once (useful life 1-3, limits symbolic; boolean-mask filter as assumed library contract); Hendrix: four-case decomposition and the contents of both tables (nested loop invariants over the real numpy loops) proved, the sum over the event space itself bounded only (complete enumeration on a parameter grid; tail mass = known finding).",
+ "C13": "Proof of sum-to-one / non-negativity by construction for Forest, De Moor and Mirjalili's demand factor with the distribution functions uninterpreted; Mirjalili's event space proved to be exactly the documented event set, each event once (useful life 1-3, limits symbolic; boolean-mask filter as assumed library contract); Hendrix: four-case decomposition and the contents of both tables (nested loop invariants over the real numpy loops) proved, the sum over the event space itself bounded only (complete enumeration on a parameter grid; tail mass = known finding). Mirjalili sum-to-one: Lean events_sum_one over the discharged obligations + the assumed fact that the multinomial pmf sums to one.",
  "C14": "Proof per dimension instance (state dimension <= 4, order limits symbolic): documented sizes, index of every listed state, in-box vectors map to the row holding them; closure of transition for useful life <= 5, lead time <= 4.",
  "C15": "Proof, complete per dimension instance (useful life 1..5 x lead time 1..4 x issuing policy), all quantities symbolic: transition == independent scalar model, conservation, reward coefficient-wise.",
  "C16": "Plumbing proved with distribution functions uninterpreted (which distribution, parameters, bins, ordering, censoring, product form, initial values); numerics of special functions trusted; Hendrix: four cases + table contents (pu = Poisson demand thinned by binomial substitution, pz = convolution with Poisson demand for A) proved for the configured parameters; Mirjalili event space = documented event set. The comparison against scipy brute force stays as bounded second line.",
